@@ -5,7 +5,7 @@ use crate::core::*;
 use crate::core::StatsExt;
 use crate::gen::{exhaustive_count, exhaustive_graph, gen_graph, GraphParams};
 use crate::loader::*;
-use crate::model::{reachable_cycle, run_model, Verdict};
+use crate::model::{reachable_cycle, run_model, work_bound, Verdict};
 use crate::simfs::FsStore;
 use crate::spec::*;
 use serde::{Deserialize, Serialize};
@@ -72,7 +72,13 @@ pub fn judge(case: &Case, stats: &mut Stats) -> (Judgement, Option<Outcome>) {
     let cyclic = reachable_cycle(spec);
     debug_assert_eq!(cyclic, uncached.verdict == Verdict::Loop);
     let cached = run_model(spec, true);
-    let budget = 64 * (uncached.loads + 2);
+    // (the model stops at ITS first loop; the real execution may reach another one later, e.g. because
+    // @use/@forward run before the body: the bound counts past loops)
+    let Some(bound) = work_bound(spec) else {
+        stats.inc("graphs_too_big");
+        return (Judgement::Unjudged("too_big"), None);
+    };
+    let budget = 64 * (bound + 2);
     let plan = FaultPlan::default();
     let o = run_graph(spec, &plan, Chunking::NONE, budget);
     stats.compiled(&o);
@@ -351,7 +357,7 @@ impl Prop for C02 {
         vec![
             "SimFs has POSIX lexical path semantics without symlinks; cross-validated against the real FsLoader on a sample".into(),
             "generated files contain only loads and marker rules, so Ok or a loop error are the only legitimate results; other errors leave a run unjudged (at least 90% of runs must be judged)".into(),
-            "liveness is bounded: 64 x (loads of the uncached reference execution + 2) loader lookups".into(),
+            "liveness is bounded: 64 x (loads of the uncached reference execution, counted past loads of files in progress, + 2) loader lookups".into(),
         ]
     }
     fn sanity(&self, stats: &Stats, _tier: Tier) -> Vec<String> {
